@@ -93,7 +93,12 @@ impl LocalEnv {
             if let Some(self_details) = self.bindings.get_mut(&ident) {
                 *self_details = self_details.clone().merge(other_details);
             } else {
-                self.bindings.insert(ident, other_details);
+                // The variable is unset in this state, where reading it yields `null`.
+                let unset = Details {
+                    type_def: TypeDef::null(),
+                    value: Some(Value::Null),
+                };
+                self.bindings.insert(ident, other_details.merge(unset));
             }
         }
         self
